@@ -38,12 +38,20 @@ func tagIfParser(doc *Parser, start *Token, arguments *Parser) (INodeTag, *Error
 	}
 
 	// Check the rest
+	elseSeen := false
 	for {
 		wrapper, tagArgs, err := doc.WrapUntilTag("elif", "else", "endif")
 		if err != nil {
 			return nil, err
 		}
 		ifNode.wrappers = append(ifNode.wrappers, wrapper)
+
+		if elseSeen && wrapper.Endtag != "endif" {
+			// the else branch is the last one (an elif behind it would get
+			// its condition paired with the wrong branch)
+			return nil, tagArgs.Error("Only endif is allowed after the else branch.", nil)
+		}
+		elseSeen = wrapper.Endtag == "else"
 
 		if wrapper.Endtag == "elif" {
 			// elif can take a condition
